@@ -100,8 +100,8 @@ func buildRealGraphC(g *GraphSpec, stages map[string]*scheduler.Stage, built map
 	built[g] = eg
 	for _, s := range g.Stages {
 		st := &scheduler.Stage{
-			Name:         s.Name,
-			DependsOn:    append([]string(nil), s.Deps...),
+			Name:         s.RealName(),
+			DependsOn:    g.RealDeps(s),
 			AllowFailure: s.Allow,
 		}
 		switch s.Cond {
@@ -124,11 +124,36 @@ func buildRealGraphC(g *GraphSpec, stages map[string]*scheduler.Stage, built map
 			st.Task = t
 		}
 		stages[s.Name] = st
+		uniqMu.Lock()
+		uniqName[st] = s.Name
+		uniqMu.Unlock()
 		if err := eg.AddStage(st); err != nil {
 			return nil, err
 		}
 	}
 	return eg, nil
+}
+
+// uniqName: the world-unique name of a real stage object (its Name may be shared with a stage of
+// another pipeline). Reset per run.
+var (
+	uniqMu   sync.Mutex
+	uniqName = map[*scheduler.Stage]string{}
+)
+
+func resetUniq() {
+	uniqMu.Lock()
+	uniqName = map[*scheduler.Stage]string{}
+	uniqMu.Unlock()
+}
+
+func uniqOf(st *scheduler.Stage) string {
+	uniqMu.Lock()
+	defer uniqMu.Unlock()
+	if n, ok := uniqName[st]; ok {
+		return n
+	}
+	return st.Name
 }
 
 type SchedProfile struct {
@@ -508,13 +533,14 @@ func RunSchedWorld(c *Ctl, prof *SchedProfile, g *GraphSpec, res *RunResult) {
 	c.onEvent = e.onEvent
 	scheduler.VerifYield = func(kind string, subj interface{}) {
 		st := subj.(*scheduler.Stage)
+		name := uniqOf(st)
 		switch kind {
 		case "stage-start":
-			c.Yield("stage-start", st.Name, nil)
+			c.Yield("stage-start", name, nil)
 		case "sched-visit":
 			// inactive unless the controller armed a mid-pass park; only visits of the root
 			// pipeline's loops count (their sequence is deterministic)
-			if atomic.LoadInt32(&e.midArm) > 0 && e.g.Stage(st.Name) != nil {
+			if atomic.LoadInt32(&e.midArm) > 0 && e.g.Stage(name) != nil {
 				if atomic.AddInt32(&e.midArm, -1) == 0 {
 					c.Yield("sched-visit", "root", nil)
 				}
